@@ -5,6 +5,9 @@ EXTENDS MCGen
 OpsV == {"GoNew", "Unimplemented", "AssertionFailedf", "WithHint", "WithDetail", "WithTelemetry",
          "WithDomain", "WithIssueLink", "WithContextTags", "WithAssertionFailure",
          "HandleAsAssertionFailure", "WrapWithHTTPCode", "WrapWithGrpcCode", "Join", "Hop"}
+\* restricted instance: OS-level errors (sentinels, errnos, path / syscall / link errors)
+\* whose predicates (permission / exist / not-exist / timeout) must survive hops
+OpsOS == {"Sentinel", "Errno", "CtxDeadline", "OsPathError", "OsSyscallError", "OsLinkError", "Wrap", "WithHint", "Hop"}
 \* restricted instance: long hint / detail chains over a six-word vocabulary
 OpsHints == {"GoNew", "WithHint", "WithDetail", "WithAssertionFailure", "WithIssueLink"}
 ShapesH == {<<"w1">>, <<"w2">>, <<"w3">>, <<"w4">>, <<"w5">>, <<"w6">>}
